@@ -223,6 +223,18 @@ CHECKS = {
         note=TRUSTED + " vfs models close-commit atomicity of real file implementations. Fault pairs only for the 1-2 smallest programs; machine loss combined with caching belongs to C02.",
         design_ref="§4 E3, §5 C13",
     ),
+    "C04": dict(
+        category="exploration",
+        technique="differential enumeration of a configuration lattice (all configurations within 1 / 2 deviations of the default, plus the full product of the session options) over 14 executor-path-specific programs, against the default configuration and an independent reference evaluator",
+        text=("14 programs chosen so that every executor path differs (combiner with few keys / with 900 keys and spills, prefixed reduce, Cogroup expand-deps, Fold, reshuffle/repartition/reshard with a WriterFunc placement check, nested shuffles, shared "
+              "sub-slice, Head, Flatmap, Scan/WriterFunc observers, a Cache program run cold and warm, an ordered shuffle-free pipeline, 3-way Cogroup) run under every configuration with <=1 deviation from the default (quick: 69 configurations, 560 evaluations) "
+              "and <=2 deviations plus the full product machines x procs x Parallelism x MaxLoad x MachineCombiners x DoShuffleReaders (thorough: 1,075 configurations, 8,905 evaluations): executor {local, verifsystem}, cluster shape, Parallelism, MaxLoad, "
+              "MachineCombiners, vector size, sort canary, spill batch, shuffle-reader randomisation, and Procs/Exclusive/Materialize pragmas at every pipeline position; process-wide sizes are set per child process. Oracle: rows equal the reference "
+              "evaluator's and the default configuration's (multiset; sequence where fixed); Scan/WriterFunc observers see each row once; user metric counters read from Result.Scope() equal the reference row counts and the default's "
+              "(cluster runs judged only when failure-free: no machine lost, Worker.Run calls == tasks)."),
+        note=TRUSTED + " Reference evaluator = harness/refeval (standard library only). Sort canary and spill batch have no run-time observable, that they are exercised is argued by construction. Seeded random generation of larger programs is another family.",
+        design_ref="§5 C04",
+    ),
 }
 
 NOT_YET = "check designed in DESIGN.md §5 but not yet built/validated in this tree; not claimed"
